@@ -173,6 +173,10 @@ func (m *mavenExtension) init(input string) error {
 		if cat == versionUnknown {
 			return fmt.Errorf("invalid version %#q", input)
 		}
+		if first && cat == versionSeparator {
+			// A leading separator follows an empty, that is zero, element.
+			elements = append(elements, mavenElement{str: "0"})
+		}
 		if cat == versionSeparator {
 			e.sep = str[0]
 			str = str[1:]
